@@ -310,9 +310,32 @@ func Any(r *rand.Rand, size int) KeySet {
 	return ks
 }
 
+// BinaryExact: a strictly binary, prefix-free trie with exactly 64k+1 leaves, hence exactly 64k inner
+// nodes (k = 1..4): structures with one bit per inner node end exactly at a word boundary.
+func BinaryExact(r *rand.Rand) KeySet {
+	n := 64*(1+r.Intn(4)) + 1
+	if r.Intn(4) == 0 {
+		n += []int{-1, 1}[r.Intn(2)]
+	}
+	two := [][]byte{{0x10, 0x20}, {0x61, 0x62}, {0x0f, 0xf0}, {0x00, 0xff}}[r.Intn(4)]
+	l := 10 + r.Intn(4)
+	m := map[string]struct{}{}
+	for len(m) < n {
+		b := make([]byte, l)
+		for i := range b {
+			b[i] = two[r.Intn(2)]
+		}
+		m[string(b)] = struct{}{}
+	}
+	return KeySet{uniqSorted(m), "binaryexact"}
+}
+
 func anyClass(r *rand.Rand, size int) KeySet {
 	if size >= 64 && r.Intn(20) == 0 {
 		return ExactCount(r, size)
+	}
+	if size >= 64 && r.Intn(25) == 0 {
+		return BinaryExact(r)
 	}
 	if size >= 20 {
 		switch r.Intn(60) {
